@@ -265,12 +265,15 @@ Definition realise (in_timezones : bool) (d : dt) : dt :=
   | _ => d
   end.
 
-(* an index column: _pre_allocate.get_type(index=True) turns a masked dtype into "int64" *)
-Definition realise_index (in_timezones : bool) (d : dt) : dt :=
+(* an index column.  Repaired tree (fix: commit, masked_index = true): dataframe.empty builds the index on a masked
+   array like a masked column; the pinned tree's _pre_allocate.get_type(index=True) turned a masked dtype into "int64" *)
+Definition realise_index_gen (masked_index : bool) (in_timezones : bool) (d : dt) : dt :=
   match d with
-  | DNInt _ _ | DNBool => DInt true 64
+  | DNInt _ _ | DNBool => if masked_index then d else DInt true 64
   | _ => realise in_timezones d
   end.
+Definition realise_index := realise_index_gen true.
+Definition realise_index_old := realise_index_gen false.
 
 (* ------------------------------------------------------------------------------------------ *)
 (* which columns and which index a read returns (api._get_index, to_pandas, _pre_allocate)      *)
